@@ -1470,5 +1470,52 @@ theorem dueIds_shardEntries (now shard : Nat) (t : AMap (Nat × Nat) Nat) :
           List.map_cons, List.filter_cons_of_neg (by simpa using hd), ih]
     · rw [List.filter_cons_of_neg (by simpa using hs), List.filter_cons_of_neg (by simp [hs]), ih]
 
+/-- with unique keys, the entries the sweep removes from the index are exactly the due ones of the shard -/
+theorem any_due_iff (now shard : Nat) (t : AMap (Nat × Nat) Nat) (hnd : AMap.NoDup t) (q : (Nat × Nat) × Nat)
+    (hq : q ∈ t) :
+    ((t.filter (fun p => p.1.1 == shard)).map (fun p => (p.1.2, p.2))).any
+        (fun p => decide (now > p.2) && decide ((shard, p.1) = q.1)) =
+      (q.1.1 == shard && decide (now > q.2)) := by
+  rw [Bool.eq_iff_iff]
+  simp only [List.any_map, List.any_eq_true, List.mem_filter, Function.comp, beq_iff_eq, Bool.and_eq_true,
+    decide_eq_true_eq]
+  constructor
+  · rintro ⟨r, ⟨hr, hrs⟩, hdue, hkey⟩
+    have hk : r.1 = q.1 := by rw [← hkey]; exact Prod.ext hrs rfl
+    have h1 := AMap.get?_of_mem hnd (a := r.1) (b := r.2) hr
+    have h2 := AMap.get?_of_mem hnd (a := q.1) (b := q.2) hq
+    rw [hk, h2] at h1
+    have h3 : q.2 = r.2 := Option.some.inj h1
+    exact ⟨by rw [← hk]; exact hrs, by rw [h3]; exact hdue⟩
+  · rintro ⟨hs, hd⟩
+    exact ⟨q, ⟨hq, hs⟩, hd, Prod.ext hs.symm rfl⟩
+
+/-- the shared state after a sweep in visiting order `vs` is the one `sweepStep` computes -/
+theorem sweep_state_eq (g : State) (vs : List Nat) (hnd : AMap.NoDup g.ttl)
+    (hv : ValidVisits (shardEntries g) vs) (g' : State) (out : Out) (hA : sweepStep g = .ok (g', out)) :
+    ({ (visitOrder (shardEntries g) vs).foldl (visitG g.now (secsOf g.now % g.cfg.shards)) g with
+        sweeperAlive := g.sweeperKeep } : State) = g' := by
+  have hP := visitOrder_perm hv (shardEntries_nodup g hnd)
+  unfold sweepStep at hA
+  split at hA
+  · cases hA
+  · simp only [Except.ok.injEq, Prod.mk.injEq] at hA
+    rw [← hA.1]
+    rw [foldl_visitG_eq, sweepEntries_eq, foldl_evictId_keep, foldl_evictId_ttl]
+    have h1 : (dueIds g.now (visitOrder (shardEntries g) vs)).foldl evictId g =
+        ((g.ttl.filter (fun p => p.1.1 == secsOf g.now % g.cfg.shards && decide (g.now > p.2))).map
+          (fun p => p.1.2)).foldl evictId g := by
+      rw [← dueIds_shardEntries]
+      exact sweepEntries_perm ((hP.filter _).map _) g
+    have h2 : (visitOrder (shardEntries g) vs).foldl (visitTtl g.now (secsOf g.now % g.cfg.shards)) g.ttl =
+        g.ttl.filter (fun p => !(p.1.1 == secsOf g.now % g.cfg.shards && decide (g.now > p.2))) := by
+      rw [foldl_visitTtl_eq]
+      apply List.filter_congr
+      intro q hq
+      rw [hP.any_eq]
+      exact congrArg _ (any_due_iff g.now _ g.ttl hnd q hq)
+    rw [h1, h2]
+    simp only [foldl_evictId_keep]
+
 end B
 end Cached
